@@ -30,6 +30,7 @@ EXPLANATION = (
     ' Round 6: (16) the hN bound of the 88-colour fallback lies between the number of basic colours and the number of leading colour numbers on which the folded 88- and 256-colour palettes agree; (20) INV restricted to Text / AttrMap / AttrWrap / SelectableIcon / Edit: every write of markup or attribute-map state invalidates (a retagged text with the same characters otherwise keeps its old attributes on screen).'
     ' (21) RUNPOS: the attribute runs _tagmarkup_recurse returns have a length shown positive - an empty string in the markup creates no run (fix f28b40b: the rendered row ended at the zero-length run).'
     ' Round 7: (22) = C04.3: whatever changes what a palette name means on the terminal (re-registering an entry) resets the screen buffer, so rows whose names and text did not change are repainted with the new colours.'
+    ' Round 8: (23) FLOW: the tuple branch of _tagmarkup_recurse recurses with tm[0] on every path, None included; (24) ORDER: attr_to_escape() asks the palette before it special-cases None.'
 )
 NOT_DECIDED = "Run-length alignment of attributes through layout and encoding, composition order of nested maps as a value statement, the SGR text produced for every AttrSpec and its decoding."
 ASSUMPTIONS = []
